@@ -6,7 +6,7 @@
 (2) sqfs2tar on the image -> Python tarfile and GNU tar (extraction as root) read the same tree;
 (3) img1 -> sqfs2tar -> tar2sqfs -> img2 (semantically equal) -> sqfs2tar -> tar2sqfs -> img3 == img2 bytes.
 """
-import os, stat, hashlib, io, subprocess
+import os, re, stat, hashlib, io, subprocess
 from hypothesis import strategies as st
 import vcommon, vbuild, treemodel, tarimg, packlib, sqfsimg
 from vcommon import Violation, Inconclusive, CaseInfo, Result, Scratch
@@ -478,6 +478,102 @@ def check_case(case, opts):
         return CaseInfo(bool(nontrivial), classes)
 
 
+def bigsparse_case(args):
+    """A sparse member whose map has offsets beyond 8 GiB (old GNU: base-256 map fields, as GNU tar -S writes them; PAX 0.1 / 1.0: decimal).
+    The data islands must come back at their offsets.  args = (format, gap in bytes, number of islands, seed)"""
+    fmt, gap, nisl, seed = args
+    import random, subprocess
+    rng = random.Random(seed * 31 + nisl)
+    isl = []
+    pos = 0
+    for i in range(nisl):
+        ln = rng.choice([8, 512, 700, 4096])
+        isl.append((pos, rng.randbytes(ln)))
+        pos += ln + (gap if i == 0 else rng.choice([512, 4096, 1 << 20]))
+    real = isl[-1][0] + len(isl[-1][1])
+    segs = [(o, len(d)) for o, d in isl] + [(real, 0)]
+    data = b"".join(d for _, d in isl)
+
+    def num(v, n):
+        return (b"%0*o" % (n - 1, v) + b"\0") if v < 8 ** (n - 1) else bytes([0x80]) + v.to_bytes(n - 1, "big")
+    if fmt == "old":
+        h = bytearray(tarimg._header(b"big", 0o644, 0, 0, len(data), 5, b"S", b"", "gnu"))
+        ext = b""
+        for i, (o, c) in enumerate(segs[:4]):
+            h[386 + 24 * i:386 + 24 * i + 24] = num(o, 12) + num(c, 12)
+        rest = segs[4:]
+        h[482] = 1 if rest else 0
+        h[483:495] = num(real, 12)
+        h[148:156] = b" " * 8
+        h[148:156] = b"%06o\0 " % sum(h)
+        while rest:
+            blk = bytearray(512)
+            for i, (o, c) in enumerate(rest[:21]):
+                blk[24 * i:24 * i + 24] = num(o, 12) + num(c, 12)
+            rest = rest[21:]
+            blk[504] = 1 if rest else 0
+            ext += bytes(blk)
+        ar = bytes(h) + ext + tarimg._pad(data)
+    else:
+        if fmt == "0.1":
+            recs = [(b"GNU.sparse.size", b"%d" % real), (b"GNU.sparse.numblocks", b"%d" % len(segs)), (b"GNU.sparse.map", b",".join(b"%d,%d" % sg for sg in segs))]
+            payload = data
+        else:
+            recs = [(b"GNU.sparse.major", b"1"), (b"GNU.sparse.minor", b"0"), (b"GNU.sparse.name", b"big"), (b"GNU.sparse.realsize", b"%d" % real)]
+            mp_ = b"%d\n" % len(segs) + b"".join(b"%d\n%d\n" % sg for sg in segs)
+            payload = tarimg._pad(mp_) + data
+        body = tarimg._pax_records(recs)
+        ar = tarimg._header(b"./PaxHeaders/big", 0o644, 0, 0, len(body), 0, b"x", b"", "ustar") + tarimg._pad(body) + \
+            tarimg._header(b"big" if fmt == "0.1" else b"GNUSparseFile.0/big", 0o644, 0, 0, len(payload), 5, b"0", b"", "ustar") + tarimg._pad(payload)
+    ar += tarimg.encode_archive([dict(name=b"zz-after", type="file", mode=0o644, uid=0, gid=0, mtime=1, xattrs={}, data=b"after\n", enc=dict(fmt="ustar"))])
+    what = "sparse member (%s map, %d islands, first hole %d bytes, size %d)" % (fmt, nisl, gap, real)
+    key = "bigsparse-%s-%d-%d-%d" % (fmt, gap, nisl, seed)
+    with Scratch("c04big") as sc:
+        img = os.path.join(sc, "o.sqfs")
+        r = vcommon.run([vcommon.tool("asan", "tar2sqfs"), "-q", "-c", "lz4", "-b", "1048576", img], stdin=ar, timeout=600)
+        if r.timeout or r.sanitizer():
+            return ("bad", args, "tar2sqfs on a %s: %s" % (what, "timeout" if r.timeout else r.sanitizer()), key)
+        if r.rc != 0:
+            return ("bad", args, "tar2sqfs refuses a %s: %s" % (what, r.err[-200:].decode(errors="replace")), key)
+        rd = vcommon.tool("plain", "rdsquashfs")
+        st_ = vcommon.run([rd, "-s", "big", img], timeout=60)
+        m = re.search(rb"File size: (\d+)", st_.out)
+        if not m or int(m.group(1)) != real:
+            return ("bad", args, "%s: image says %s, expected size %d" % (what, m.group(0) if m else st_.out[:100], real), key)
+        # read the file back through a pipe and compare the islands (everything else must be zero at a few probes)
+        p = subprocess.Popen([rd, "-c", "big", img], stdout=subprocess.PIPE)
+        pos = 0
+        ok = True
+        why = ""
+        for o, d in isl:
+            # skip the hole
+            left = o - pos
+            while left > 0:
+                chunk = p.stdout.read(min(left, 1 << 24))
+                if not chunk:
+                    break
+                if left <= (1 << 24) or pos == 0:
+                    if any(chunk):
+                        ok, why = False, "non-zero bytes in the hole before offset %d" % o
+                left -= len(chunk)
+                pos += len(chunk)
+            got = p.stdout.read(len(d))
+            pos += len(got)
+            if got != d:
+                ok, why = False, "the %d data bytes at offset %d read back as %r..." % (len(d), o, got[:16])
+                break
+        rest = p.stdout.read()
+        p.wait()
+        if ok and rest:
+            ok, why = False, "%d bytes behind the end" % len(rest)
+        if not ok:
+            return ("bad", args, "%s: %s" % (what, why), key)
+        a = vcommon.run([rd, "-c", "zz-after", img], timeout=60)
+        if a.out != b"after\n":
+            return ("bad", args, "%s: the member behind it is missing / differs" % what, key)
+    return ("ok", args, ["bigsparse_" + fmt, "bigsparse_offsets_beyond_8GiB" if gap >= (8 << 30) else "bigsparse_small"], key)
+
+
 def strat(tier, opts):
     return cases(tier)
 
@@ -487,8 +583,23 @@ def main(tier, seed, scale=1.0):
     n = int((4000 if tier == "quick" else 60000) * scale)
     res = Result(PROP)
     vcommon.run_corpus(PROP, check_case, {"prop": PROP}, res)
-    for d in vcommon.run_shards("c04", "check_case", "strat", n, seed, tier, {"prop": PROP}):
+    import multiprocessing as mp
+    bigs = [("old", 9 << 30, 2, seed), ("old", (8 << 30) - 4096, 6, seed), ("0.1", 9 << 30, 3, seed), ("1.0", 9 << 30, 3, seed)]
+    if tier != "quick":
+        bigs += [("old", 17 << 30, 30, seed), ("old", 1 << 20, 40, seed), ("1.0", 33 << 30, 5, seed), ("0.1", (8 << 30) + 1, 2, seed)]
+    bp = mp.get_context("fork").Pool(4)
+    bres = bp.map_async(bigsparse_case, bigs if scale >= 0.1 else [], chunksize=1)
+    for d in vcommon.run_shards("c04", "check_case", "strat", n, seed, tier, {"prop": PROP}, shards=13):
         res.merge_shard(d)
+    for r in bres.get():
+        res.evaluations += 1
+        if r[0] == "ok":
+            res.nontrivial.add(r[3])
+            for c in r[2]:
+                res.add_class(c)
+        else:
+            res.violations.append((r[2], vcommon.save_replay(PROP, dict(bigsparse=list(r[1])), r[2])))
+    bp.close()
     res.rule = ("Hypothesis archives: entry orders, name/link lengths around 100/155/256, sizes around 512 and k*B, octal/base-256/PAX numbers "
                 "incl. negative and >2^33 mtimes, sparse maps old/0.0/0.1/1.0, SCHILY/LIBARCHIVE xattrs, hard links before/after targets, "
                 "implicit parents, './' '/' prefixes x tar2sqfs options (-r -S -k -x -s -T -e, compressor, block size) x sqfs2tar options "
@@ -503,4 +614,11 @@ def main(tier, seed, scale=1.0):
 
 def replay(path):
     vbuild.build("asan")
+    c = vcommon.load_replay(path)["case"]
+    if isinstance(c, dict) and c.get("bigsparse"):
+        res = Result(PROP)
+        r = bigsparse_case(tuple(c["bigsparse"]))
+        if r[0] != "ok":
+            res.violations.append((r[2], path))
+        return res
     return vcommon.replay_case(PROP, check_case, path)
